@@ -215,6 +215,7 @@ PROBES = ["[[a ~ b] ~ c]", "[[a~b]~c] + d", "[[a ~ b] + [c ~ d] ~ e]", "[a ~ [b 
           ". ~ .", "a ~ . | .", "-", "--1", "a - - a", "+", "a +", "()", "(())", "a()", "1()", "(a)(b)", "a b", "1 2", "a 1", "`a` `b`", "a\\", "\\",
           "{(a + b).abs()} ~ a", "f(a)[0](b) ~ a", "{a[0].z} ~ b", "a ~ {(a + b).abs()}", "{(a).b} ~ .", "{f(a)(b)} + .", "{[a][0].real} ~ b", "{a if b else c} ~ a",
           "{(lambda q: q)(a)} ~ b", "{-a.b} ~ c", "{a.b.c()} ~ d", "{a[b](c).d} | e ~ f",
+          "a ** (b + .)", "a ^ (b:.)", "a ** (-.)", "1 ** (  + - -. ) *2.5", "a ** (. - 1)",
           "a**(2+0)", "a^(2-0)", "(a+b)**(1+0)", "a**(0+2)", "y ~ a**(2+0)", "a**((0))", "(0+a) b", "a (0)", "a**(2+0) + b | c",
           "a ** {{[]}}", "a ** {{[]: 1}}", "a ^ {{{}}}", "a ** 99999999999999999999", "a ^ 9223372036854775808", "a ** 1e3", "a ** 2.0", "a ** -1",
           "f(\ud800)", "{\ud800}", "f('\udfff')", "{" + "+".join(f"x{i}" for i in range(600)) + "}", "f(" + "-" * 3000 + "a)", "a" + "[0]" * 3000,
